@@ -142,6 +142,7 @@ package db
 //@   modifies * -M:S_db_KeyCol -M:S_sqlittle_columnIndex hdr_valid hdr_ps hdr_cookie jr_pos peer_state
 //@   requires db != nil
 //@   ensures [current] err == nil ==> r0 != nil && repr(r0, page, db.header.ChangeCounter) && db.header.ChangeCounter == cc_now && CACHE_OK(db) && !db.dirty
+//@   ensures [cacheptr] db.objectCache == nil || db.objectCache == old(db.objectCache)
 //@   trusted-ensures err == nil ==> r0 != nil && iref(r0) != nil && pg(iref(r0)) == page && tleaf_wf(iref(r0))
 
 // ---------------------------------------------------------------------------------------
